@@ -80,6 +80,15 @@ fn run(cfgv: &Value, seed: u64, code: &str, file: &str, fs: &FsSpec, plan: &Faul
     }
 }
 
+/// first half of a text, cut at a character boundary
+fn half(s: &str) -> String {
+    let mut n = s.len() / 2;
+    while n > 0 && !s.is_char_boundary(n) {
+        n -= 1;
+    }
+    s[..n].to_string()
+}
+
 fn dir_of(f: &str) -> String {
     std::path::Path::new(f).parent().map(|p| p.to_string_lossy().to_string()).unwrap_or_default()
 }
@@ -159,7 +168,7 @@ fn plan10(seed: u64, run: u64, tier: Tier) -> Plan10 {
             ref_kind = "malformed";
             let p = join(&dir, url_name);
             let body = match rng.below(4) {
-                0 => ojson[..ojson.len() / 2].to_string(),
+                0 => half(&ojson),
                 // a two-field segment: invalid per the spec (1, 4 or 5 fields)
                 1 => ojson.replace("\"mappings\":\"", "\"mappings\":\"AA,"),
                 2 => "not json at all".to_string(),
@@ -624,7 +633,7 @@ impl Engine for C10 {
                         None
                     }
                     _ => {
-                        fs.nodes.insert(path.clone(), FsNode::Text(o1[..o1.len() / 2].to_string()));
+                        fs.nodes.insert(path.clone(), FsNode::Text(half(o1)));
                         None
                     }
                 };
